@@ -161,6 +161,16 @@ def _format_help_text(description):
     return '\n'.join(formatted_lines)
 
 
+def _quote_check_str(check_str):
+    """Render a rule value as a YAML (and JSON) flow scalar or sequence.
+
+    A JSON document is also valid YAML, so quotes, backslashes and rules in
+    the legacy list-of-lists syntax are written such that the file loads back
+    to the same rule.
+    """
+    return jsonutils.dumps(check_str)
+
+
 def _format_rule_default_yaml(default, include_help=True, comment_rule=True,
                               add_deprecated_rules=True):
     """Create a yaml node from policy.RuleDefault or policy.DocumentedRuleDefault.
@@ -173,9 +183,9 @@ def _format_rule_default_yaml(default, include_help=True, comment_rule=True,
                                  text.
     :returns: A string containing a yaml representation of the RuleDefault
     """  # noqa: E501
-    text = ('"%(name)s": "%(check_str)s"\n' %
+    text = ('"%(name)s": %(check_str)s\n' %
             {'name': default.name,
-             'check_str': default.check_str})
+             'check_str': _quote_check_str(default.check_str)})
 
     if include_help:
         op = ""
@@ -509,9 +519,9 @@ def _convert_policy_json_to_yaml(namespace, policy_file, output_file=None):
     if file_policies:
         yaml_format_rules.append(extra_rules_text)
     for file_rule, check_str in file_policies.items():
-        rule_text = ('"%(name)s": "%(check_str)s"\n' %
+        rule_text = ('"%(name)s": %(check_str)s\n' %
                      {'name': file_rule,
-                      'check_str': check_str})
+                      'check_str': _quote_check_str(check_str)})
         yaml_format_rules.append(rule_text)
 
     if output_file:
